@@ -316,6 +316,39 @@ def transition(task):
         s.cleanup()
 
 
+def big_result_task(task):
+    """One run whose result document is several MiB large (many targets with long paths x many commands, nearly all
+    of them undefined for the targets, so hardly any process is started): `result show` returns that document,
+    and after a small run the small one."""
+    ntargets, ncommands = task
+    s = sc.Scratch("c12big")
+    try:
+        names = ["%s/%s%03d" % ("p" * 200, "q" * 190, i) for i in range(ntargets)]
+        ts = [{"path": n} for n in names]
+        r = sc.Repo(s, "r", ts, commands={names[0]: {"c000": "x"}}, max_retained_runs=3, init_git=False)
+        cmds = ["c%03d" % i for i in range(ncommands)]
+        viol = []
+        res = r.mr("run", "-c", *cmds, env=r.trace_env(), timeout=600)
+        doc = res.json()
+        if res.code != 0 or doc is None:
+            return {"engine_error": "the wide run did not complete: exit %s %s" % (res.code, res.err[:200])}
+        size = len(res.out)
+        rs = r.mr("result", "show", timeout=600)
+        if rs.code != 0 or canon_result(rs.json()) != canon_result(doc):
+            viol.append(("result-show-differs", "a completed run printed a document of %d bytes (%d targets x %d commands); result show: exit %s %s" % (size, ntargets, ncommands, rs.code, (rs.err or rs.out)[:200])))
+        small = r.mr("run", "-c", "c000", "-t", names[0], env=r.trace_env())
+        rs2 = r.mr("result", "show")
+        if small.code != 0 or rs2.code != 0 or canon_result(rs2.json()) != canon_result(small.json()):
+            viol.append(("result-show-differs", "after the wide run a small run: result show exit %s differs from what the run printed" % rs2.code))
+        return {"violations": [{"sig": sig, "detail": d, "rank": 5, "case": {"big_result": list(task)}} for sig, d in viol], "evals": 3, "bytes": size}
+    except common.EngineError as e:
+        return {"engine_error": str(e)}
+    except Exception:
+        return {"engine_error": traceback.format_exc()[-1500:]}
+    finally:
+        s.cleanup()
+
+
 def linear_task(task):
     """One long history in one repository for a large max_retained_runs (None: the default, 10): the
     slot counter wraps from a multi-digit id back to 1. After every run the same observations as in
@@ -494,6 +527,15 @@ def run(prop, tier):
             agg["traces_validated_against_impl"] += r["transitions"]
             agg["violations"].extend(r["violations"])
             obs.update(r["obs"])
+        bres = common.pmap(big_result_task, [(120, 101)] if tier == "quick" else [(120, 101), (200, 150)])
+        errs = [r["engine_error"] for r in bres if "engine_error" in r]
+        if errs:
+            raise common.EngineError("; ".join(errs[:2]))
+        for r in bres:
+            agg["transitions"] += r["evals"]
+            agg["traces_validated_against_impl"] += r["evals"]
+            agg["violations"].extend(r["violations"])
+        agg["largest_result_document_bytes"] = max(r["bytes"] for r in bres)
         agg["long_histories"] = [{"max_retained_runs": x[0] if x[0] is not None else "default", "pattern": [RUNS[i]["name"] for i in x[1]], "runs": x[2], "listener": len(x) > 3} for x in lin]
     finally:
         store_s.cleanup()
@@ -501,7 +543,7 @@ def run(prop, tier):
     agg["evaluations"] = agg["transitions"]
     agg["distinct_nontrivial"] = agg["states"]
     agg["exhaustive"] = all(f["converged"] for f in agg["fixpoint"].values())
-    agg["rule"] = "BFS to fixpoint over run histories for max_retained_runs in %s (plus, for max 2, a depth-bounded search whose alphabet also contains a run that aborts with a fatal error during execution); alphabet of completing runs: %s; state = actual disk content of <out>/tracking/run.json and <out>/run/** (decoded, timestamps and run times dropped); plus %d single long histories (not a fixpoint search) for max_retained_runs in 9..12/20/99..101/default that cross the wrap of the slot counter from a multi-digit id to 1 at least once; plus three runs over 700 targets (thorough also 1500) whose result document is far larger than 64 KiB; after every transition: result show == the document that run printed, log show == exactly that run's logs, log show --id <slot> for each retained run, number of run directories <= max" % (maxes, [r["name"] for r in RUNS], len(lin))
+    agg["rule"] = "BFS to fixpoint over run histories for max_retained_runs in %s (plus, for max 2, a depth-bounded search whose alphabet also contains a run that aborts with a fatal error during execution); alphabet of completing runs: %s; state = actual disk content of <out>/tracking/run.json and <out>/run/** (decoded, timestamps and run times dropped); plus %d single long histories (not a fixpoint search) for max_retained_runs in 9..12/20/99..101/default that cross the wrap of the slot counter from a multi-digit id to 1 at least once; plus three runs over 700 targets (thorough also 1500) whose result document is far larger than 64 KiB; plus one run of 120 long-named targets x 101 commands (thorough also 200 x 150) whose result document is several MiB; after every transition: result show == the document that run printed, log show == exactly that run's logs, log show --id <slot> for each retained run, number of run directories <= max" % (maxes, [r["name"] for r in RUNS], len(lin))
     by = {}
     for v in agg["violations"]:
         by[v["sig"]] = by.get(v["sig"], 0) + 1
@@ -517,6 +559,18 @@ def replay(prop, path):
     case = body["case"]
     if "wide" in case:
         r = wide_task(case["wide"])
+        if "engine_error" in r:
+            print("ENGINE:", r["engine_error"])
+            return 2
+        for v in r["violations"]:
+            print("REPLAY property=%s still violates: [%s] %s" % (prop, v["sig"], v["detail"][:300]))
+        if r["violations"]:
+            print("VIOLATION property=%s replay=%s" % (prop, path))
+            return 1
+        print("REPLAY property=%s: case passes on the current tree" % prop)
+        return 0
+    if "big_result" in case:
+        r = big_result_task(tuple(case["big_result"]))
         if "engine_error" in r:
             print("ENGINE:", r["engine_error"])
             return 2
